@@ -3,6 +3,14 @@
 import json, sys
 
 CHECKS = {
+ "C08": ("Spy range monitor on every evaluated state + per-stage JSON checks over chains of 1-4 optimisation stages, plus initial-state validity sweep",
+         "Exploration: ~1.5k (quick) / ~57k (thorough) chains of 1-4 stages on hard and LJ states of all groups (4M+ evaluated states range-checked in quick), with bounds re-derived from each stage's own start, labels and degrees of freedom per family, finite defined score of the re-read result, no panic; and from_group validity for every group x {polygon 3..64, circle, trimers} x potential.",
+         "Ranges are those stated by the property, not read from the code; results are read back through serde JSON as a user would.",
+         "DESIGN.md 5 C08"),
+ "C20": ("trace monitor call counting + bit-exact prefix comparison of convergent vs full runs + loop-boundary convergence rule; process-boundary classifier on the real CLI",
+         "Exploration: ~3k (quick) / ~96k (thorough) library configurations over steps/inner_steps in {0,1,2,3,7,999,1000,1001,2500,1e5} x temperatures x schedules x thresholds (no panic, work within [steps - one loop, steps], convergent run an exact prefix, exit at exactly the loop the rule dictates) and ~110 (quick) / ~2500 (thorough) runs of the real binary classified by exit status, stderr and output files.",
+         "The convergence rule is decided only when the loop-boundary scores are unambiguous from the trace (counted in the evidence).",
+         "DESIGN.md 5 C20"),
  "C05": ("trace monitor (candidate-set automaton over State::score() calls) on scripted and Spy-wrapped real states across the optimiser configuration space at kt_start = 0",
          "Exploration: ~4k (quick) / ~200k (thorough) runs, tens of millions of observed steps: every accept/reject decision that the parameter vectors resolve is checked (no worse score accepted), and the returned score is compared with the input score, over kt_finish/kt_ratio/steps/inner_steps/convergence/step/seed, through the CLI parser (kt_finish unset) and the builder API.",
          "Decisions are inferred from bit patterns of the parameter vectors at the State boundary; unresolved decisions are never used.",
@@ -110,6 +118,6 @@ def main():
     json.dump(m, open("/verif/MANIFEST.json", "w"), indent=1)
     print("claimed:", [c["property_id"] for c in checks])
 
-HOOK_COMMITS = []
+HOOK_COMMITS = ["b06e964"]
 if __name__ == "__main__":
     main()
